@@ -6,15 +6,30 @@
 //!   codec_sim shrink <file> <out>
 //!   codec_sim hashes --seed S --count N          (helper process for C13)
 
+mod more;
 mod values;
 
 use std::{
-    collections::{BTreeMap, BTreeSet, HashMap, HashSet, LinkedList, VecDeque},
+    borrow::Cow,
+    cell::{Cell, RefCell},
+    cmp::Reverse,
+    collections::{BTreeMap, BTreeSet, BinaryHeap, HashMap, HashSet, LinkedList, VecDeque},
+    ffi::{CString, OsString},
     io::{self, Read, Write},
+    marker::PhantomData,
+    num::{NonZeroI16, NonZeroI128, NonZeroU8, NonZeroU32, NonZeroU64, NonZeroUsize, Wrapping},
+    ops::{Bound, Range, RangeFrom, RangeFull, RangeInclusive, RangeTo, RangeToInclusive},
+    path::PathBuf,
     rc::Rc,
-    sync::{Arc, Mutex},
-    time::Instant,
+    sync::{
+        Arc, Mutex,
+        atomic::{AtomicBool, AtomicI64, AtomicU8, AtomicU32},
+    },
+    time::{Duration, Instant},
 };
+
+use dashmap::{DashMap, DashSet};
+use more::{Big, EnSkip, GenTupSkip, HPair, NamedSkipEnds, Pair, TupSkipMid, TupSkipMixed};
 
 use qbice::{Decode, Encode, StableHash};
 use qbice_serialize::{Decoder, Encoder, Plugin, PostcardDecoder, PostcardEncoder};
@@ -196,6 +211,8 @@ macro_rules! c12_types {
 
 type HM<K, W> = HashMap<K, W, SeededState>;
 type HS<K> = HashSet<K, SeededState>;
+type DM<K, W> = DashMap<K, W, SeededState>;
+type DS<K> = DashSet<K, SeededState>;
 
 c12_types!(
     u8, u16, u32, u64, u128, usize, i8, i16, i32, i64, i128, isize, bool, char, f32, f64, (), String,
@@ -209,6 +226,17 @@ c12_types!(
     HM<u32, String>, HM<String, Vec<u8>>, HS<u64>, HS<String>, HM<u8, HS<u8>>, Vec<HM<u8, u8>>,
     Named, Tup, UnitS, En, Gen<u8>, Gen<String>, Gen<Vec<u8>>, GenE<u8, String>, GenE<Vec<u8>, Option<u8>>, WithSkip,
     Vec<Named>, Option<En>, BTreeMap<String, En>, (Named, En, Tup), Vec<Gen<Option<String>>>,
+    // second part of the universe (more.rs)
+    (u8,), (String,), (u8, String, Vec<u8>, Option<u8>), (u8, u16, u32, u64, String),
+    (u8, u8, u8, u8, u8, u8, u8, u8, u8, u8, u8, String),
+    Box<[u8]>, Rc<[String]>, Arc<[Option<u16>]>, Box<str>, Rc<str>, Arc<str>, PathBuf, Cow<'static, str>, Cow<'static, [u8]>,
+    PhantomData<u8>, Duration, Cell<u32>, RefCell<String>, Wrapping<u16>, Reverse<String>,
+    NonZeroU8, NonZeroU32, NonZeroU64, NonZeroI16, NonZeroI128, NonZeroUsize, AtomicBool, AtomicU8, AtomicU32, AtomicI64,
+    Range<u32>, RangeInclusive<i64>, RangeFrom<u8>, RangeTo<String>, RangeToInclusive<u16>, RangeFull, Bound<u32>, Bound<String>,
+    DM<u32, String>, DS<u64>, Vec<DS<u8>>,
+    TupSkipMid, TupSkipMixed, GenTupSkip<String>, GenTupSkip<u8>, NamedSkipEnds, EnSkip, Big, Vec<Big>, Vec<EnSkip>, (TupSkipMid, u8),
+    Option<TupSkipMixed>, BTreeMap<u8, EnSkip>,
+    Pair<String>, Pair<Vec<u8>>, Pair<PathBuf>, Pair<Box<str>>, Pair<VecDeque<u8>>, Pair<Vec<String>>,
 );
 
 #[derive(Clone, Debug, Serialize, Deserialize)]
@@ -465,6 +493,135 @@ impl<K: Rebuild + Eq + std::hash::Hash> Rebuild for HS<K> {
     }
 }
 
+rebuild_dup!(
+    PathBuf, OsString, CString, Duration, NonZeroU32, NonZeroI128, Big, PhantomData<u8>, Box<str>, Arc<str>, AtomicU32,
+    RangeFull
+);
+impl<T: Rebuild> Rebuild for VecDeque<T> {
+    fn rebuild(&self, r: &mut Rng) -> Self {
+        // the ring buffer starts somewhere else: the back half is pushed at
+        // the back, the front half at the front, then elements travel round
+        let items: Vec<T> = self.iter().map(|x| x.rebuild(r)).collect();
+        let mid = r.usize(items.len() + 1);
+        let mut d = VecDeque::with_capacity(items.len() + r.usize(9));
+        let mut front: Vec<T> = Vec::new();
+        for (i, x) in items.into_iter().enumerate() {
+            if i < mid {
+                front.push(x);
+            } else {
+                d.push_back(x);
+            }
+        }
+        for x in front.into_iter().rev() {
+            d.push_front(x);
+        }
+        for _ in 0..r.usize(4) {
+            if let Some(x) = d.pop_front() {
+                d.push_back(x);
+                d.rotate_right(1);
+            }
+        }
+        d
+    }
+}
+impl<T: Rebuild> Rebuild for LinkedList<T> {
+    fn rebuild(&self, r: &mut Rng) -> Self {
+        let mut l = LinkedList::new();
+        let items: Vec<T> = self.iter().map(|x| x.rebuild(r)).collect();
+        for x in items.into_iter().rev() {
+            l.push_front(x);
+        }
+        l
+    }
+}
+impl<T: Rebuild + Ord> Rebuild for BinaryHeap<T> {
+    fn rebuild(&self, r: &mut Rng) -> Self {
+        // another insertion order gives another layout of the backing array;
+        // so does taking the top off and putting it back
+        let mut items: Vec<T> = self.iter().map(|x| x.rebuild(r)).collect();
+        r.shuffle(&mut items);
+        let mut h = BinaryHeap::with_capacity(items.len() + r.usize(9));
+        for x in items {
+            h.push(x);
+        }
+        for _ in 0..r.usize(3) {
+            if let Some(x) = h.pop() {
+                h.push(x);
+            }
+        }
+        h
+    }
+}
+impl<T: Rebuild, const N: usize> Rebuild for [T; N] {
+    fn rebuild(&self, r: &mut Rng) -> Self { std::array::from_fn(|i| self[i].rebuild(r)) }
+}
+impl<T: Rebuild> Rebuild for Rc<T> { fn rebuild(&self, r: &mut Rng) -> Self { Rc::new((**self).rebuild(r)) } }
+impl<T: Rebuild> Rebuild for Box<[T]> {
+    fn rebuild(&self, r: &mut Rng) -> Self { self.iter().map(|x| x.rebuild(r)).collect::<Vec<T>>().into_boxed_slice() }
+}
+impl<T: Rebuild> Rebuild for Range<T> { fn rebuild(&self, r: &mut Rng) -> Self { self.start.rebuild(r)..self.end.rebuild(r) } }
+impl<T: Rebuild> Rebuild for RangeInclusive<T> { fn rebuild(&self, r: &mut Rng) -> Self { self.start().rebuild(r)..=self.end().rebuild(r) } }
+impl<T: Rebuild> Rebuild for RangeFrom<T> { fn rebuild(&self, r: &mut Rng) -> Self { self.start.rebuild(r).. } }
+impl<T: Rebuild> Rebuild for RangeTo<T> { fn rebuild(&self, r: &mut Rng) -> Self { ..self.end.rebuild(r) } }
+impl<T: Rebuild> Rebuild for RangeToInclusive<T> { fn rebuild(&self, r: &mut Rng) -> Self { ..=self.end.rebuild(r) } }
+impl<A: Rebuild> Rebuild for (A,) { fn rebuild(&self, r: &mut Rng) -> Self { (self.0.rebuild(r),) } }
+impl<A: Rebuild, B: Rebuild, C: Rebuild, D: Rebuild> Rebuild for (A, B, C, D) {
+    fn rebuild(&self, r: &mut Rng) -> Self { (self.0.rebuild(r), self.1.rebuild(r), self.2.rebuild(r), self.3.rebuild(r)) }
+}
+impl<A: Rebuild, L: Rebuild> Rebuild for (A, A, A, A, A, A, A, A, A, A, A, L) {
+    fn rebuild(&self, r: &mut Rng) -> Self {
+        (
+            self.0.rebuild(r),
+            self.1.rebuild(r),
+            self.2.rebuild(r),
+            self.3.rebuild(r),
+            self.4.rebuild(r),
+            self.5.rebuild(r),
+            self.6.rebuild(r),
+            self.7.rebuild(r),
+            self.8.rebuild(r),
+            self.9.rebuild(r),
+            self.10.rebuild(r),
+            self.11.rebuild(r),
+        )
+    }
+}
+impl<K: Rebuild + Eq + std::hash::Hash, W: Rebuild> Rebuild for DM<K, W> {
+    fn rebuild(&self, r: &mut Rng) -> Self {
+        // another hasher state, shard count and insertion order
+        let m = DashMap::with_capacity_and_hasher_and_shard_amount(r.usize(64), SeededState(r.next_u64()), 1 << r.range(1, 5));
+        let mut items: Vec<(K, W)> = self.iter().map(|e| (e.key().rebuild(r), e.value().rebuild(r))).collect();
+        r.shuffle(&mut items);
+        for (k, v) in items {
+            if r.chance(1, 3) {
+                m.insert(k.dup(), v.dup());
+                m.remove(&k);
+            }
+            m.insert(k, v);
+        }
+        m
+    }
+}
+impl<K: Rebuild + Eq + std::hash::Hash> Rebuild for DS<K> {
+    fn rebuild(&self, r: &mut Rng) -> Self {
+        let m = DashSet::with_capacity_and_hasher(r.usize(64), SeededState(r.next_u64()));
+        let mut items: Vec<K> = self.iter().map(|k| k.key().rebuild(r)).collect();
+        r.shuffle(&mut items);
+        for k in items {
+            m.insert(k);
+        }
+        m
+    }
+}
+impl<T: Rebuild + more::Cat> Rebuild for Pair<T> { fn rebuild(&self, r: &mut Rng) -> Self { Pair(self.0.rebuild(r), self.1.rebuild(r)) } }
+impl<T: Rebuild + more::Cat> Rebuild for HPair<T> { fn rebuild(&self, r: &mut Rng) -> Self { HPair(self.0.rebuild(r), self.1.rebuild(r)) } }
+impl Rebuild for Cow<'static, String> {
+    fn rebuild(&self, r: &mut Rng) -> Self {
+        // owned vs. borrowed storage
+        if r.chance(1, 2) { Cow::Owned((**self).clone()) } else { Cow::Borrowed(Box::leak(Box::new((**self).clone()))) }
+    }
+}
+
 struct C13Result {
     equal_ok: bool,
     codec_ok: bool,
@@ -475,6 +632,21 @@ struct C13Result {
 }
 
 fn c13_one<T: Rebuild + StableHash + Encode + Decode>(r: &mut Rng, unordered: bool) -> C13Result {
+    c13_any::<T>(r, unordered, &|v: &T, real: u128| {
+        // after a serialization round trip
+        let plugin = Plugin::default();
+        let mut e = PostcardEncoder::new(Vec::new());
+        e.encode(v, &plugin).unwrap();
+        let bytes = e.into_inner();
+        let back: T = PostcardDecoder::new(std::io::Cursor::new(bytes)).decode(&plugin).expect("decode");
+        real_hash(&back) == real
+    })
+}
+
+/// types the stable hash supports and the serializer does not
+fn c13_hash<T: Rebuild + StableHash>(r: &mut Rng, unordered: bool) -> C13Result { c13_any::<T>(r, unordered, &|_, _| true) }
+
+fn c13_any<T: Rebuild + StableHash>(r: &mut Rng, unordered: bool, codec: &dyn Fn(&T, u128) -> bool) -> C13Result {
     let v = T::gen_v(r, 3);
     let real = real_hash(&v);
     let mut equal_ok = true;
@@ -482,25 +654,19 @@ fn c13_one<T: Rebuild + StableHash + Encode + Decode>(r: &mut Rng, unordered: bo
         let w = v.rebuild(r);
         equal_ok &= w.same(&v) && real_hash(&w) == real && flat_of(&w) == flat_of(&v);
     }
-    // after a serialization round trip
-    let plugin = Plugin::default();
-    let mut e = PostcardEncoder::new(Vec::new());
-    e.encode(&v, &plugin).unwrap();
-    let bytes = e.into_inner();
-    let back: T = PostcardDecoder::new(std::io::Cursor::new(bytes)).decode(&plugin).expect("decode");
-    let codec_ok = real_hash(&back) == real;
+    let codec_ok = codec(&v, real);
     let n = v.near(r);
     let near_distinct = if n.same(&v) { None } else { Some(flat_of(&n) != flat_of(&v) && real_hash(&n) != real) };
     C13Result { equal_ok, codec_ok, near_distinct, real, ty: T::name(), unordered }
 }
 
 macro_rules! c13_types {
-    ($(($t:ty, $u:expr)),* $(,)?) => {
+    ($(($t:ty, $u:expr, $f:ident)),* $(,)?) => {
         fn c13_count() -> usize { [$(stringify!($t)),*].len() }
         fn c13_run_type(i: usize, r: &mut Rng) -> C13Result {
             let mut k = 0usize;
             $(
-                if i == k { return c13_one::<$t>(r, $u); }
+                if i == k { return $f::<$t>(r, $u); }
                 k += 1;
             )*
             let _ = k;
@@ -510,15 +676,29 @@ macro_rules! c13_types {
 }
 
 c13_types!(
-    (u8, false), (u64, false), (i128, false), (bool, false), (char, false), (f64, false), (String, false), ((), false),
-    (Vec<u8>, false), (Vec<String>, false), (Vec<Vec<u8>>, false), (Vec<Option<String>>, false), (Vec<(String, String)>, false),
-    (Option<u8>, false), (Option<String>, false), (Option<Option<u8>>, false), (Result<u8, u8>, false), (Result<String, Vec<u8>>, false),
-    ((String, String), false), ((Vec<u8>, Vec<u8>), false), ((Option<u8>, Option<u8>), false), ((String, u8, String), false),
-    (Box<String>, false), (Arc<Vec<u8>>, false),
-    (BTreeMap<String, u32>, false), (BTreeSet<String>, false), (BTreeMap<u8, Vec<u8>>, false),
-    (HM<String, u32>, true), (HM<u32, Vec<u8>>, true), (HS<String>, true), (HS<u64>, true), (HM<u8, HS<u8>>, true),
-    (Vec<HS<u8>>, true), ((HS<u8>, HS<u8>), true), (HM<String, Option<String>>, true), (Option<HM<u8, u8>>, true),
-    (Named, false), (Tup, false), (En, false), (Vec<En>, false), (Vec<Tup>, false), (HM<String, En>, true), ((Tup, Tup), false),
+    (u8, false, c13_one), (u64, false, c13_one), (i128, false, c13_one), (bool, false, c13_one), (char, false, c13_one), (f64, false, c13_one), (String, false, c13_one), ((), false, c13_one),
+    (Vec<u8>, false, c13_one), (Vec<String>, false, c13_one), (Vec<Vec<u8>>, false, c13_one), (Vec<Option<String>>, false, c13_one), (Vec<(String, String)>, false, c13_one),
+    (Option<u8>, false, c13_one), (Option<String>, false, c13_one), (Option<Option<u8>>, false, c13_one), (Result<u8, u8>, false, c13_one), (Result<String, Vec<u8>>, false, c13_one),
+    ((String, String), false, c13_one), ((Vec<u8>, Vec<u8>), false, c13_one), ((Option<u8>, Option<u8>), false, c13_one), ((String, u8, String), false, c13_one),
+    (Box<String>, false, c13_one), (Arc<Vec<u8>>, false, c13_one),
+    (BTreeMap<String, u32>, false, c13_one), (BTreeSet<String>, false, c13_one), (BTreeMap<u8, Vec<u8>>, false, c13_one),
+    (HM<String, u32>, true, c13_one), (HM<u32, Vec<u8>>, true, c13_one), (HS<String>, true, c13_one), (HS<u64>, true, c13_one), (HM<u8, HS<u8>>, true, c13_one),
+    (Vec<HS<u8>>, true, c13_one), ((HS<u8>, HS<u8>), true, c13_one), (HM<String, Option<String>>, true, c13_one), (Option<HM<u8, u8>>, true, c13_one),
+    (Named, false, c13_one), (Tup, false, c13_one), (En, false, c13_one), (Vec<En>, false, c13_one), (Vec<Tup>, false, c13_one), (HM<String, En>, true, c13_one), ((Tup, Tup), false, c13_one),
+    // second part of the universe (more.rs)
+    (PathBuf, false, c13_one), (Duration, false, c13_one), (NonZeroU32, false, c13_one), (NonZeroI128, false, c13_one), (AtomicU32, false, c13_one), (PhantomData<u8>, false, c13_one),
+    (Range<u32>, false, c13_one), (RangeInclusive<i64>, false, c13_one), (RangeFrom<u8>, false, c13_one), (RangeTo<String>, false, c13_one), (RangeToInclusive<u16>, false, c13_one),
+    (RangeFull, false, c13_one), ([u8; 3], false, c13_one), ([String; 2], false, c13_one), (VecDeque<u8>, false, c13_one), (VecDeque<String>, false, c13_one), (LinkedList<String>, false, c13_one),
+    (Rc<String>, false, c13_one), (Box<[u8]>, false, c13_one), (Box<str>, false, c13_one), (Arc<str>, false, c13_one),
+    ((u8,), false, c13_one), ((u8, String, Vec<u8>, Option<u8>), false, c13_one), ((u8, u8, u8, u8, u8, u8, u8, u8, u8, u8, u8, String), false, c13_one),
+    (DM<u32, String>, true, c13_one), (DS<u64>, true, c13_one), (DM<String, Vec<u8>>, true, c13_one), (Big, false, c13_one), (Vec<Big>, false, c13_one),
+    (Pair<String>, false, c13_one), (Pair<Vec<u8>>, false, c13_one), (Pair<Vec<String>>, false, c13_one), (Pair<PathBuf>, false, c13_one), (Pair<VecDeque<u8>>, false, c13_one),
+    (Pair<LinkedList<u8>>, false, c13_one), (Pair<Box<str>>, false, c13_one), (Pair<Arc<str>>, false, c13_one), (Pair<Box<[u8]>>, false, c13_one), (Pair<BTreeSet<u8>>, false, c13_one),
+    // hash only
+    (BinaryHeap<u32>, true, c13_hash), (BinaryHeap<String>, true, c13_hash), (HPair<BinaryHeap<u8>>, true, c13_hash),
+    ((BinaryHeap<u8>, u8), true, c13_hash), (OsString, false, c13_hash), (CString, false, c13_hash), (HPair<OsString>, false, c13_hash),
+    (HPair<CString>, false, c13_hash), (Vec<OsString>, false, c13_hash), (Cow<'static, String>, false, c13_hash),
+    (HPair<PathBuf>, false, c13_hash),
 );
 
 #[derive(Clone, Debug, Serialize, Deserialize)]
